@@ -199,6 +199,8 @@ where
                 let will_animate = self.timelines.get(state).is_some();
                 if was_animating && !will_animate {
                     self.paused_animation = Some((self.current_state.clone(), self.state_duration));
+                } else if will_animate {
+                    self.paused_animation = None;
                 }
                 self.blend_next_timeline(state);
                 self.state_duration = Duration::ZERO;
